@@ -81,7 +81,7 @@ pub fn check_line(line: &str, cx: &mut Cx) {
 fn run(r: &mut Run) -> Result<(), MachineryError> {
     let t = r.tier;
     let alpha = [L, SP, HY, W, CM, TAB, NB, ZW, WJ, SHY, EM, OP, CL, CR, NL, CSI, OSS, E2, D, DOT];
-    let n = t.pick(4, 5);
+    let n = t.pick(4, 6);
     let space = Space { name: "C11/lines".into(), menu: menu(&alpha), max_len: n, desc: format!("lines of length <= {} x both separators", n) };
     r.space(space, |seq, cx| {
         let line = build(seq, &alpha);
@@ -104,7 +104,7 @@ fn run(r: &mut Run) -> Result<(), MachineryError> {
     })?;
     // deeper over the symbols that drive the state machines (spaces, hyphens, sequences, wide)
     let core = [L, SP, HY, W, SHY, CSI, OSB, TAB, ZW];
-    let n = t.pick(5, 7);
+    let n = t.pick(6, 8);
     let space = Space { name: "C11/lines-core-deeper".into(), menu: menu(&core), max_len: n, desc: format!("lines of length <= {} over the 9 symbols that drive the separators' state x both separators", n) };
     r.space(space, |seq, cx| {
         let line = build(seq, &core);
